@@ -85,6 +85,16 @@ func childMain() {
 	mux.HandleFunc("/verif/busy", func(rw http.ResponseWriter, r *http.Request) {
 		_ = json.NewEncoder(rw).Encode(measureBusy(300 * time.Millisecond))
 	})
+	// /verif/busyall (added for C11): like /verif/busy, but lists goroutines of ANY code that are running/runnable
+	// in both samples (first frame outside the runtime), to tell a spin from diffuse work when the cpu time is high
+	mux.HandleFunc("/verif/busyall", func(rw http.ResponseWriter, r *http.Request) {
+		_ = json.NewEncoder(rw).Encode(measureBusyAll(300 * time.Millisecond))
+	})
+	// /verif/stacks (added for C11): the full goroutine dump as text, for diagnosing leftover goroutines
+	mux.HandleFunc("/verif/stacks", func(rw http.ResponseWriter, r *http.Request) {
+		buf := make([]byte, 16<<20)
+		_, _ = rw.Write(buf[:runtime.Stack(buf, true)])
+	})
 	ln, err := net.Listen("tcp", "127.0.0.1:0")
 	if err != nil {
 		fmt.Println("CHILD-FAILED", err)
@@ -139,6 +149,55 @@ func measureBusy(d time.Duration) busyReport {
 	time.Sleep(d)
 	c1, t1 := cpuNow(), time.Now()
 	b := runnableRepo()
+	rep := busyReport{WallMs: t1.Sub(t0).Milliseconds(), CPUMs: (c1 - c0).Milliseconds(), Goroutines: runtime.NumGoroutine()}
+	for id, fr := range a {
+		if fr2, ok := b[id]; ok && fr2 == fr {
+			rep.SpinningRepo = append(rep.SpinningRepo, "goroutine "+id+": "+fr)
+		}
+	}
+	return rep
+}
+
+// runnableAll returns, per goroutine id, the first frame outside the Go runtime of every goroutine that is running
+// or runnable (the goroutine taking the dump excluded).
+func runnableAll() map[string]string {
+	buf := make([]byte, 8<<20)
+	buf = buf[:runtime.Stack(buf, true)]
+	out := map[string]string{}
+	for _, blk := range strings.Split(string(buf), "\n\n") {
+		lines := strings.Split(blk, "\n")
+		if len(lines) < 2 || !strings.HasPrefix(lines[0], "goroutine ") {
+			continue
+		}
+		hdr := lines[0]
+		if !strings.Contains(hdr, "[running]") && !strings.Contains(hdr, "[runnable]") {
+			continue
+		}
+		if strings.Contains(blk, "main.runnableAll") {
+			continue
+		}
+		frame := strings.TrimSpace(lines[1])
+		for _, l := range lines[1:] {
+			if strings.HasPrefix(l, "\t") || strings.HasPrefix(l, "created by") {
+				continue
+			}
+			if strings.HasPrefix(l, "runtime.") || strings.HasPrefix(l, "runtime/") || strings.HasPrefix(l, "internal/") || strings.HasPrefix(l, "syscall.") {
+				continue
+			}
+			frame = strings.TrimSpace(l)
+			break
+		}
+		out[strings.Fields(hdr)[1]] = frame
+	}
+	return out
+}
+
+func measureBusyAll(d time.Duration) busyReport {
+	a := runnableAll()
+	c0, t0 := cpuNow(), time.Now()
+	time.Sleep(d)
+	c1, t1 := cpuNow(), time.Now()
+	b := runnableAll()
 	rep := busyReport{WallMs: t1.Sub(t0).Milliseconds(), CPUMs: (c1 - c0).Milliseconds(), Goroutines: runtime.NumGoroutine()}
 	for id, fr := range a {
 		if fr2, ok := b[id]; ok && fr2 == fr {
